@@ -11,7 +11,7 @@ use proptest::prelude::*;
 use serde::{Deserialize, Serialize};
 use std::collections::BTreeMap;
 
-pub const RULE: &str = "(D1) every sequence up to length 4 (thorough: 5 over a 22-template core) over an alphabet of statement templates on names a, b: bind, rebind, copy, nested assignment `a = (b = 5) + 1`, self-nested `a = (a = 1) + 1`, list-nested, partially failing `[a = 1, nope]`, `output a`, `output a = 1`, do-block shadowing / nested assignment inside a do-block / do-block returning a closure, functions whose parameters reuse a / b, calls, closures over a, assignment inside a lambda body, failing statements, attempts to bind keywords, inputs, constants and built-in names; each statement is evaluated like a REPL line and compared with a bind-once reference model (success / failure, the whole root environment, values). (D2) random sessions of 5-40 generated statements with rebinding attempts and failing statements, checked with history invariants: snapshot monotonicity, no insert into the root environment for a key it holds (hook H2), reserved names never bound, root names are a subset of the names assigned in top-level position. Non-trivial = the history contains a (re)binding attempt on an already bound or reserved name, or a shadowing scope; distinct by the statement sequence.";
+pub const RULE: &str = "(D0) every protected name (14 keywords / inputs / constants and every name of get_built_in_function_idents()) x 11 binding forms (plain, output, nested in parentheses / list / record / operator chain / conditional, function value; and inside a lambda body or do-block): the top-level forms must fail, and in all forms what typeof / to_string / field access observe of the name at top level, and the set of root names, must be unchanged. (D1) every sequence up to length 4 (thorough: 5 over a 22-template core) over an alphabet of statement templates on names a, b: bind, rebind, copy, nested assignment `a = (b = 5) + 1`, self-nested `a = (a = 1) + 1`, list-nested, partially failing `[a = 1, nope]`, `output a`, `output a = 1`, do-block shadowing / nested assignment inside a do-block / do-block returning a closure, functions whose parameters reuse a / b, calls, closures over a, assignment inside a lambda body, failing statements, attempts to bind keywords, inputs, constants and built-in names; each statement is evaluated like a REPL line and compared with a bind-once reference model (success / failure, the whole root environment, values). (D2) random sessions of 5-40 generated statements with rebinding attempts and failing statements, checked with history invariants: snapshot monotonicity, no insert into the root environment for a key it holds (hook H2), reserved names never bound, root names are a subset of the names assigned in top-level position. Non-trivial = the history contains a (re)binding attempt on an already bound or reserved name, or a shadowing scope; distinct by the statement sequence.";
 pub const ASSUMPTIONS: &[&str] = &[
     "hook H2 (thread-local log of Environment::insert) is a monitor only; with the feature off the code is unchanged",
     "a statement that fails half-way may keep the bindings its already-evaluated inner assignments made (the statement only requires that bound names never change)",
@@ -279,6 +279,36 @@ pub struct History;
 pub enum Case {
     Templates(Vec<u8>),
     Session { stmts: Vec<String>, top_level_names: Vec<String> },
+    /// an attempt to bind a protected name (keyword, built-in, inputs, constants) in one of PROTECTED_FORMS
+    Protected { name: String, form: u8 },
+}
+
+/// (text with NAME as the placeholder, must the statement fail?). The last three bind inside a
+/// function body or do-block: whatever the statement does, the top level must be unaffected.
+pub const PROTECTED_FORMS: &[(&str, bool)] = &[
+    ("NAME = 1", true),
+    ("output NAME = 1", true),
+    ("zq = (NAME = 1)", true),
+    ("[NAME = 1]", true),
+    ("NAME = x => x", true),
+    ("zq = 1 + (NAME = 2) * 3", true),
+    ("{k: NAME = 1}", true),
+    ("zq = if true then (NAME = 1) else 2", true),
+    ("[1] via (x => (NAME = x))", false),
+    ("do {\n  NAME = 1\n  return 2\n}", false),
+    ("(() => do {\n  NAME = 5\n  return NAME\n})()", false),
+];
+
+/// what a user can observe of a protected name at top level
+fn observe_protected(sess: &Sess, name: &str) -> Vec<String> {
+    let mut out = Vec::new();
+    for probe in [name.to_string(), format!("typeof({})", name), format!("to_string({})", name), format!("{}.pi", name), format!("{}.n", name)] {
+        out.push(match sess.obs(&probe) {
+            Ok(v) => format!("{} -> {:?}", probe, v),
+            Err(_) => format!("{} -> error", probe),
+        });
+    }
+    out
 }
 
 const RESERVED_NAMES: &[&str] = &["if", "then", "else", "true", "false", "null", "and", "or", "not", "do", "return", "output", "constants"];
@@ -342,6 +372,34 @@ impl Check for History {
                 }
                 if nontrivial {
                     ctx.nontrivial(hash_str(&format!("{:?}", seq)));
+                }
+                Ok(())
+            }
+            Case::Protected { name, form } => {
+                let (tmpl, must_fail) = PROTECTED_FORMS[*form as usize % PROTECTED_FORMS.len()];
+                let src = tmpl.replace("NAME", name);
+                ctx.label(if must_fail { "protected:top-level-form" } else { "protected:inner-scope-form" });
+                ctx.nontrivial(hash_str(&src));
+                let sess = Sess::new();
+                sess.set_inputs(&[("n".into(), crate::model::mv::num(4.0))]);
+                let before = observe_protected(&sess, name);
+                let names_before: Vec<String> = snapshot(&sess).keys().cloned().collect();
+                verif_hooks::arm();
+                let got = sess.obs(&src);
+                let log = verif_hooks::take();
+                if let Some(k) = monitor_violation(&log) {
+                    fail!(format!("protected:monitor:root-overwrite:{}", tmpl.replace('\n', " ")), "`{}`: the root environment was overwritten for key {}", src, k);
+                }
+                if must_fail && got.is_ok() {
+                    fail!(format!("protected:bound:{}", tmpl.replace('\n', " ")), "`{}` succeeded ({:?}) although {} is a keyword, a built-in function name, inputs or constants", src, got, name);
+                }
+                let after = observe_protected(&sess, name);
+                if after != before {
+                    fail!(format!("protected:changed:{}", tmpl.replace('\n', " ")), "after `{}` the name {} is observed differently at top level:\nbefore: {:?}\nafter:  {:?}", src, name, before, after);
+                }
+                let names_after: Vec<String> = snapshot(&sess).keys().cloned().collect();
+                if let Some(k) = names_after.iter().find(|k| !names_before.contains(k) && (k.as_str() != "zq" || got.is_err())) {
+                    fail!(format!("protected:root-gained:{}", tmpl.replace('\n', " ")), "after `{}` ({:?}) the root environment gained the name {}", src, got.as_ref().map(|_| "ok"), k);
                 }
                 Ok(())
             }
@@ -470,6 +528,13 @@ fn session_case(tape: &[u16]) -> Case {
 
 pub fn run(ctx: &mut Ctx) {
     let thorough = ctx.tier == crate::engine::Tier::Thorough;
+    // D0: every protected name x every binding form
+    let mut protected: Vec<String> = ["if", "then", "else", "true", "false", "null", "and", "or", "not", "do", "return", "output", "inputs", "constants"].iter().map(|s| s.to_string()).collect();
+    let mut builtins: Vec<String> = blots_core::functions::get_built_in_function_idents().iter().map(|s| s.to_string()).collect();
+    builtins.sort();
+    protected.extend(builtins);
+    let cases: Vec<Case> = protected.iter().flat_map(|n| (0..PROTECTED_FORMS.len()).map(move |f| Case::Protected { name: n.clone(), form: f as u8 })).collect();
+    ctx.run_enum(&History, cases.into_iter(), false);
     // D1: all sequences up to length 4 over the full alphabet
     let n = TEMPLATES.len() as u64;
     let max_len = 4u32;
